@@ -250,3 +250,239 @@ Proof.
         -- unfold located_next, located_upd, prj3. rewrite Ef. simpl. congruence.
         -- unfold located_next, located_upd, prj3. rewrite Ef. simpl. congruence.
 Qed.
+
+(** runtime: a load call after the last re-pointing met a loadable path *)
+Lemma rt_inv fs c0 : forall all,
+  forallb script_op all = true -> no_bad fs c0 all = true -> c_rt_found c0 = FNone ->
+  let c := apply_script fs c0 all in
+  (c_rt_found c <> FNone -> runtime_bad fs FNone (c_rt_path c) = false) /\
+  (existsb isRt (after_last isSetR (map undefer all)) = true ->
+   runtime_bad fs FNone (c_rt_path c) = false).
+Proof.
+  induction all as [|o a IH] using rev_ind; intros HF Hnb H0; cbv zeta.
+  - simpl. split; [intros Hf; congruence | discriminate].
+  - rewrite forallb_snoc in HF. apply andb_true_iff in HF as [HFa Ho].
+    rewrite no_bad_app in Hnb. apply andb_true_iff in Hnb as [Hnba Hb].
+    simpl in Hb. rewrite andb_true_r in Hb. apply negb_true_iff in Hb.
+    destruct (IH HFa Hnba H0) as [I2 I1]. clear IH.
+    rewrite apply_script_app. set (c := apply_script fs c0 a) in *.
+    change (apply_script fs c [o]) with (pure_step fs c o).
+    fields fs c o Ho.
+    rewrite map_app. cbn [map]. rewrite after_last_snoc.
+    assert (Hfound : c_rt_found (pure_step fs c o) = fst (rt2 (pure_step fs c o))) by reflexivity.
+    rewrite Hfound, Hr2, Hrp. clear Hfound Hp3 Hpl Hd Ho0 Hc He Hm Hdl Hsl Hul Hpf Hrp Hs3 Hu3 Hr2.
+    unfold io_bad in Hb.
+    destruct o; try discriminate; cbn [undefer isSetR isRt fst rt2] in *;
+      try (rewrite existsb_app; cbn [existsb isRt orb]; rewrite orb_false_r; split; [exact I2 | exact I1]).
+    + (* LoadRuntime *)
+      assert (G : runtime_bad fs FNone (c_rt_path c) = false).
+      { destruct (c_rt_found c) eqn:Ef; [exact Hb | apply I2; congruence | apply I2; congruence]. }
+      split; intros _; exact G.
+    + (* SetRuntimePath *)
+      split; [|discriminate]. intros Hf. exfalso. apply Hf. reflexivity.
+    + (* LoadRuntimeD *)
+      assert (G : runtime_bad fs FNone (c_rt_path c) = false).
+      { destruct (c_rt_found c) eqn:Ef; [exact Hb | apply I2; congruence | apply I2; congruence]. }
+      split; intros _; exact G.
+Qed.
+
+(** * What the specification reads off the script vs. the model's level fields *)
+Definition part3 (t : triple) : tree := norm (file_part (fst (fst t)) (snd (fst t))).
+Definition part2 (t : found * tree) : tree := norm (file_part (fst t) (snd t)).
+
+Definition sfx_agrees (want got : option string) : Prop :=
+  match want with Some w => got = Some w | None => True end.
+
+Lemma located_corr fs l :
+  let m := located_next fs blank3 (Some l) in
+  let s := located fs true (Some l) in
+  (try_suffixes fs l file_suffixes = LFail -> snd (fst s) = true) /\
+  (try_suffixes fs l file_suffixes <> LFail ->
+   part3 m = fst (fst s) /\ snd (fst s) = false /\ sfx_agrees (snd s) (snd m)).
+Proof.
+  cbv zeta. unfold located_next, located_upd, blank3, located, part3. rewrite first_suffix_only.
+  destruct (first_existing fs l) as [[s [t|]]|]; simpl; split; try congruence; intros _; auto.
+Qed.
+
+Lemma located_none fs (b : bool) :
+  located_next fs blank3 None = blank3 /\ located fs b None = (Node [], false, None).
+Proof. split; [reflexivity | destruct b; reflexivity]. Qed.
+
+Lemma located_unloaded fs loc : located fs false loc = (Node [], false, None).
+Proof. reflexivity. Qed.
+
+Definition rt_spec (fs : fsys) (loaded : bool) (p : option (string * string)) : tree * bool :=
+  match loaded, p with
+  | true, Some (stem, sfx) =>
+      if negb (mem sfx doc_suffixes) then (Node [], true)
+      else match fs_get fs stem sfx with
+           | Some (FData t) => (norm t, false)
+           | Some FIOErr => (Node [], true)
+           | None => (Node [], false)
+           end
+  | _, _ => (Node [], false)
+  end.
+
+Lemma rt_corr fs p :
+  let m := rt_next fs (FNone, Node []) p in
+  let s := rt_spec fs true p in
+  snd s = runtime_bad fs FNone p /\
+  (runtime_bad fs FNone p = false -> part2 m = fst s).
+Proof.
+  cbv zeta. unfold rt_next, runtime_upd, rt_spec, runtime_bad, part2.
+  destruct p as [[stem sfx]|]; [|split; reflexivity].
+  change doc_suffixes with file_suffixes. cbn [fst].
+  destruct (negb (mem sfx file_suffixes)); [split; [reflexivity|discriminate]|].
+  destruct (fs_get fs stem sfx) as [[t|]|]; simpl; split; try reflexivity; try discriminate.
+  intros _. destruct (String.eqb sfx "py"); reflexivity.
+Qed.
+
+Lemma fixed_loc_corr fs (is_it : op -> bool) (get3 : cfg -> triple) (getloc : cfg -> option string)
+      (l : string) (c0 : cfg) (W : list op) :
+  (forall c o, script_op o = true -> getloc (pure_step fs c o) = getloc c) ->
+  (forall c o, script_op o = true ->
+     get3 (pure_step fs c o) = if is_it (undefer o) then located_next fs (get3 c) (getloc c) else get3 c) ->
+  (forall c o, is_it (undefer o) = true -> io_bad fs c o = located_bad fs (fst (fst (get3 c))) (getloc c)) ->
+  (get3 (apply_script fs c0 W) =
+   if existsb is_it (map undefer W) then located_next fs (get3 c0) (getloc c0) else get3 c0) ->
+  get3 c0 = blank3 -> getloc c0 = Some l ->
+  forallb script_op W = true -> no_bad fs c0 W = true ->
+  let sy := located fs (existsb is_it (map undefer W)) (Some l) in
+  part3 (get3 (apply_script fs c0 W)) = fst (fst sy) /\ snd (fst sy) = false /\
+  sfx_agrees (snd sy) (snd (get3 (apply_script fs c0 W))).
+Proof.
+  intros Hloc Hstep Hbad Hfold Hb Hl HF Hnb. cbv zeta. rewrite Hfold, Hb, Hl.
+  destruct (existsb is_it (map undefer W)) eqn:E.
+  - assert (Hok : try_suffixes fs l file_suffixes <> LFail).
+    { apply (located_loaded_ok fs is_it get3 getloc l Hloc Hstep Hbad W c0 HF Hnb Hl); [|exact E].
+      left. rewrite Hb. reflexivity. }
+    destruct (located_corr fs l) as [_ H]. exact (H Hok).
+  - rewrite located_unloaded. repeat split; reflexivity.
+Qed.
+
+Definition init_ops (i : init_args) : list op := if i_lazy i then [] else [LoadSystemD; LoadUserD].
+Definition b0 (i : init_args) : cfg :=
+  blank (i_defaults i) (i_overrides i) (Some "sys") (Some "usr") (i_proj i) (i_rt i) "INVOKE_".
+
+Lemma init_ops_script i : forallb script_op (init_ops i) = true.
+Proof. unfold init_ops. destruct (i_lazy i); reflexivity. Qed.
+
+Lemma after_last_cons_other (f g : op -> bool) x l :
+  f x = false -> g x = false -> existsb g (after_last f (x :: l)) = existsb g (after_last f l).
+Proof.
+  intros Hf Hg. simpl. destruct (existsb f l) eqn:E; [reflexivity|].
+  rewrite Hf, (after_last_none f l E). simpl. rewrite Hg. reflexivity.
+Qed.
+
+Lemma sys_corr fs i ops :
+  forallb script_op ops = true -> no_bad fs (b0 i) (init_ops i ++ ops) = true ->
+  let c := apply_script fs (b0 i) (init_ops i ++ ops) in
+  let sy := located fs (negb (i_lazy i) || existsb isSys (map undefer ops)) (Some "sys") in
+  part3 (sys3 c) = fst (fst sy) /\ snd (fst sy) = false /\ sfx_agrees (snd sy) (c_sys_sfx c).
+Proof.
+  intros HF Hnb. cbv zeta.
+  assert (HW : forallb script_op (init_ops i ++ ops) = true)
+    by (rewrite forallb_app, init_ops_script, HF; reflexivity).
+  assert (Ex : existsb isSys (map undefer (init_ops i ++ ops)) =
+               negb (i_lazy i) || existsb isSys (map undefer ops))
+    by (unfold init_ops; destruct (i_lazy i); reflexivity).
+  rewrite <- Ex.
+  apply (fixed_loc_corr fs isSys sys3 c_sys_loc "sys" (b0 i) (init_ops i ++ ops)); try assumption; try reflexivity.
+  - intros c o Ho. fields fs c o Ho. exact Hsl.
+  - intros c o Ho. fields fs c o Ho. rewrite Hs3. destruct (undefer o); reflexivity.
+  - intros c o Ho. unfold io_bad. destruct (undefer o); try discriminate. reflexivity.
+  - apply fold_sys. exact HW.
+Qed.
+
+Lemma usr_corr fs i ops :
+  forallb script_op ops = true -> no_bad fs (b0 i) (init_ops i ++ ops) = true ->
+  let c := apply_script fs (b0 i) (init_ops i ++ ops) in
+  let sy := located fs (negb (i_lazy i) || existsb isUsr (map undefer ops)) (Some "usr") in
+  part3 (usr3 c) = fst (fst sy) /\ snd (fst sy) = false /\ sfx_agrees (snd sy) (c_user_sfx c).
+Proof.
+  intros HF Hnb. cbv zeta.
+  assert (HW : forallb script_op (init_ops i ++ ops) = true)
+    by (rewrite forallb_app, init_ops_script, HF; reflexivity).
+  assert (Ex : existsb isUsr (map undefer (init_ops i ++ ops)) =
+               negb (i_lazy i) || existsb isUsr (map undefer ops))
+    by (unfold init_ops; destruct (i_lazy i); reflexivity).
+  rewrite <- Ex.
+  apply (fixed_loc_corr fs isUsr usr3 c_user_loc "usr" (b0 i) (init_ops i ++ ops)); try assumption; try reflexivity.
+  - intros c o Ho. fields fs c o Ho. exact Hul.
+  - intros c o Ho. fields fs c o Ho. rewrite Hu3. destruct (undefer o); reflexivity.
+  - intros c o Ho. unfold io_bad. destruct (undefer o); try discriminate. reflexivity.
+  - apply fold_usr. exact HW.
+Qed.
+
+Lemma init_prefix_last {A} (f : op -> option A) i ops d :
+  f LoadSystem = None -> f LoadUser = None ->
+  last_of f (map undefer (init_ops i ++ ops)) d = last_of f (map undefer ops) d.
+Proof.
+  intros H1 H2. unfold init_ops. destruct (i_lazy i); [reflexivity|].
+  cbn [app map undefer]. rewrite !last_of_cons, H1, H2. reflexivity.
+Qed.
+
+Lemma init_prefix_after (f g : op -> bool) i ops :
+  f LoadSystem = false -> f LoadUser = false -> g LoadSystem = false -> g LoadUser = false ->
+  existsb g (after_last f (map undefer (init_ops i ++ ops))) = existsb g (after_last f (map undefer ops)).
+Proof.
+  intros. unfold init_ops. destruct (i_lazy i); [reflexivity|].
+  cbn [app map undefer]. rewrite !after_last_cons_other by assumption. reflexivity.
+Qed.
+
+Lemma prj_corr fs i ops :
+  forallb script_op ops = true -> no_bad fs (b0 i) (init_ops i ++ ops) = true ->
+  let c := apply_script fs (b0 i) (init_ops i ++ ops) in
+  let u := map undefer ops in
+  let pr := located fs (existsb isPrj (after_last isSetP u)) (last_of fP u (i_proj i)) in
+  part3 (prj3 c) = fst (fst pr) /\ snd (fst pr) = false /\ sfx_agrees (snd pr) (c_proj_sfx c).
+Proof.
+  intros HF Hnb. cbv zeta.
+  assert (HW : forallb script_op (init_ops i ++ ops) = true)
+    by (rewrite forallb_app, init_ops_script, HF; reflexivity).
+  destruct (prj_inv fs (b0 i) (init_ops i ++ ops) HW Hnb eq_refl) as [I2 I1]. cbv zeta in I1, I2.
+  destruct (fold_simple fs (init_ops i ++ ops) (b0 i) HW) as [_ [_ [_ [Hpl _]]]]. cbv zeta in Hpl.
+  change (c_proj_sfx (apply_script fs (b0 i) (init_ops i ++ ops)))
+    with (snd (prj3 (apply_script fs (b0 i) (init_ops i ++ ops)))).
+  assert (Hfnd : c_proj_found (apply_script fs (b0 i) (init_ops i ++ ops)) =
+                 fst (fst (prj3 (apply_script fs (b0 i) (init_ops i ++ ops))))) by reflexivity.
+  rewrite Hfnd in I1, I2. clear Hfnd.
+  rewrite (fold_prj fs _ _ HW) in *. unfold prj_closed in *.
+  rewrite init_prefix_after in * by reflexivity.
+  rewrite init_prefix_last in * by reflexivity.
+  change (c_proj_loc (b0 i)) with (i_proj i) in *. rewrite Hpl in I1, I2.
+  replace (if existsb isSetP (map undefer (init_ops i ++ ops)) then blank3 else prj3 (b0 i)) with blank3 in *
+    by (destruct (existsb isSetP (map undefer (init_ops i ++ ops))); reflexivity).
+  destruct (existsb isPrj (after_last isSetP (map undefer ops))) eqn:E.
+  - destruct (last_of fP (map undefer ops) (i_proj i)) as [l|] eqn:El.
+    + assert (Hok : try_suffixes fs l file_suffixes <> LFail).
+      { apply (I2 l eq_refl). apply (I1 eq_refl l eq_refl). }
+      destruct (located_corr fs l) as [_ H]. exact (H Hok).
+    + repeat split; reflexivity.
+  - rewrite located_unloaded. repeat split; reflexivity.
+Qed.
+
+Lemma rt_corr_script fs i ops :
+  forallb script_op ops = true -> no_bad fs (b0 i) (init_ops i ++ ops) = true ->
+  let c := apply_script fs (b0 i) (init_ops i ++ ops) in
+  let u := map undefer ops in
+  let rt := rt_spec fs (existsb isRt (after_last isSetR u)) (last_of fR u (i_rt i)) in
+  part2 (rt2 c) = fst rt /\ snd rt = false.
+Proof.
+  intros HF Hnb. cbv zeta.
+  assert (HW : forallb script_op (init_ops i ++ ops) = true)
+    by (rewrite forallb_app, init_ops_script, HF; reflexivity).
+  destruct (rt_inv fs (b0 i) (init_ops i ++ ops) HW Hnb eq_refl) as [_ I1]. cbv zeta in I1.
+  destruct (fold_simple fs (init_ops i ++ ops) (b0 i) HW) as [_ [_ [_ [_ [Hrp _]]]]]. cbv zeta in Hrp.
+  rewrite (fold_rt fs _ _ HW). unfold rt_closed.
+  rewrite init_prefix_after in * by reflexivity.
+  rewrite Hrp in I1. rewrite init_prefix_last in * by reflexivity.
+  change (c_rt_path (b0 i)) with (i_rt i) in *.
+  replace (if existsb isSetR (map undefer (init_ops i ++ ops)) then (FNone, Node []) else rt2 (b0 i))
+    with (FNone, Node [] : tree) by (destruct (existsb isSetR (map undefer (init_ops i ++ ops))); reflexivity).
+  destruct (existsb isRt (after_last isSetR (map undefer ops))) eqn:E.
+  - specialize (I1 eq_refl).
+    destruct (rt_corr fs (last_of fR (map undefer ops) (i_rt i))) as [H1 H2]. cbv zeta in H1, H2.
+    split; [apply H2; exact I1 | rewrite H1; exact I1].
+  - split; reflexivity.
+Qed.
